@@ -438,6 +438,76 @@ pub fn check_tinylfu(ctx: &Ctx, prop: E7Prop, out: &mut Outcome, q: u32, t: u32,
     finish(ctx, rule, acc, found, out, "tinylfu", &exec, &shrink);
 }
 
+/// conversions (`From<collection>`, `collect()`) from sources with repeated keys, then a short history
+pub fn check_conv(ctx: &Ctx, prop: crate::conv::ConvProp, out: &mut Outcome, q: u32, t: u32) {
+    use crate::conv::*;
+    let th = ctx.tier == Tier::Thorough;
+    let strat = move || conv_strategy(th);
+    let exec = move |c: &ConvCase| run_conv(c, prop);
+    let hash_case = |c: &ConvCase| {
+        let mut d = Case { kind: Kind::Lru, cfg: Cfg::simple(1), keys: KeyMode::Tracked, alphabet: 0, ops: vec![] };
+        d.cfg.sketch_seed = Some(fnv64(serde_json::to_string(c).unwrap_or_default().as_bytes()));
+        d
+    };
+    journal_for(ctx, "conv");
+    let (acc, found) = run_engine(&strat, &exec, &hash_case, &ctx.id, ctx.seed, 0x7c0 + prop as u64, ctx.workers, ctx.cases(q, t), &ctx.known);
+    let shrink = |c: &ConvCase, f: &dyn Fn(&ConvCase) -> bool| -> ConvCase {
+        let mut cur = c.clone();
+        let mut i = 0;
+        while i < cur.ops.len() {
+            let mut x = cur.clone();
+            x.ops.remove(i);
+            if f(&x) {
+                cur = x;
+            } else {
+                i += 1;
+            }
+        }
+        let mut i = 0;
+        while i < cur.items.len() {
+            let mut x = cur.clone();
+            x.items.remove(i);
+            if f(&x) {
+                cur = x;
+            } else {
+                i += 1;
+            }
+        }
+        cur
+    };
+    finish(ctx, "", acc, found, out, "conv", &exec, &shrink);
+}
+
+/// value-type independence of the policy (zero-sized, tiny, over-aligned, heap-owning values)
+pub fn check_vtype(ctx: &Ctx, kind: Kind, out: &mut Outcome, q: u32, t: u32) {
+    use crate::vtype::*;
+    let th = ctx.tier == Tier::Thorough;
+    let strat = move || vcase_strategy(kind, th);
+    let exec = |c: &VCase| run_vtype(c);
+    let hash_case = |c: &VCase| {
+        let mut d = Case { kind: c.kind, cfg: Cfg::simple(c.a), keys: KeyMode::Tracked, alphabet: 0, ops: vec![] };
+        d.cfg.sketch_seed = Some(fnv64(serde_json::to_string(c).unwrap_or_default().as_bytes()));
+        d
+    };
+    journal_for(ctx, "vtype");
+    let (acc, found) = run_engine(&strat, &exec, &hash_case, &ctx.id, ctx.seed, 0x7d0 + kind as u64, ctx.workers, ctx.cases(q, t), &ctx.known);
+    let shrink = |c: &VCase, f: &dyn Fn(&VCase) -> bool| -> VCase {
+        let mut cur = c.clone();
+        let mut i = 0;
+        while i < cur.ops.len() {
+            let mut x = cur.clone();
+            x.ops.remove(i);
+            if f(&x) {
+                cur = x;
+            } else {
+                i += 1;
+            }
+        }
+        cur
+    };
+    finish(ctx, "", acc, found, out, "vtype", &exec, &shrink);
+}
+
 pub fn check_sampled(ctx: &Ctx, prop: E7Prop, out: &mut Outcome, q: u32, t: u32, rule: &str) {
     let th = ctx.tier == Tier::Thorough;
     let strat = move || scase_strategy(th);
